@@ -96,14 +96,31 @@ def expat_structure(doc):
     return [(d - 1, ns, ln, "".join(t), a) for d, ns, ln, t, a in res[1:]]
 
 
+def toplevel_text(doc):
+    out, depth = [], [0]
+    p = xml.parsers.expat.ParserCreate("UTF-8")
+    def start(name, attrs): depth[0] += 1
+    def end(name): depth[0] -= 1
+    def chars(d):
+        if depth[0] == 1:
+            out.append(d)
+    p.StartElementHandler, p.EndElementHandler, p.CharacterDataHandler = start, end, chars
+    try:
+        p.Parse(b"<root-wrapper>" + doc + b"</root-wrapper>", True)
+    except xml.parsers.expat.ExpatError:
+        return ""
+    return "".join(out)
+
+
 def parse_view(text):
     rows = []
     for l in text.decode("utf-8", "replace").split("\n"):
         t = l.split(" ")
-        if len(t) != 8:
+        if len(t) < 8:
             continue
         rows.append({"depth": int(t[0]), "module": t[1], "ns": unhex(t[2]).decode() if t[2] != "-" else "", "name": t[3], "kind": t[4],
-                     "basetype": LY_TYPE.get(int(t[5]), "none") if t[5].isdigit() else "none", "dflt": t[6] == "1", "value": unhex(t[7])})
+                     "basetype": LY_TYPE.get(int(t[5]), "none") if t[5].isdigit() else "none", "dflt": t[6] == "1", "value": unhex(t[7]),
+                     "metas": [tuple(m.split(",")) for m in t[8:]]})
     return rows
 
 
@@ -138,6 +155,69 @@ def expected_json(rows):
                     obj[name] = sub
         return obj, i
     return build(0, 0, None)[0]
+
+
+def model_xml_print(cx, items, component):
+    """(K) tree level: the Lean model of the XML tree printer (LyModel/XmlTree/Model.lean: namespace stack, metadata, escaping)
+    applied to the view libyang reports must produce libyang's XML output byte for byte.  items: [(view_bytes, printed_xml)]"""
+    reqs = ["%d xmltree print %s" % (i, hexs(v)) for i, (v, _) in enumerate(items)]
+    if not reqs:
+        return
+    rm = cx.run_model(reqs)
+    for i, (v, px) in enumerate(items):
+        r = rm.get(str(i), ["err", "NoReply"])
+        if r[:2] == ["err", "Unsupported"]:
+            cx.count(None, False, component + ":xmltree-model:out-of-fragment")
+            continue
+        cx.count(("xmltree", v), bool(v), component + ":xmltree-model:" + r[0])
+        if r[0] != "ok" or unhex(r[1]) != px:
+            cx.disagree(component + "-xmltree", reqs[i][:400], ["ok", hexs(px)[:400]], [r[0], (r[1] if len(r) > 1 else "")[:400]])
+
+
+def spec_xmldoc_vs_expat(cx, docs, component):
+    """Guards the Lean document reader (LyModel/XmlTree/Spec.lean) itself: on every XML document at hand (libyang's output and
+    the independent renderings, plus broken variants) it must report what expat reports: elements, expanded names, attributes,
+    character data - or not well-formed."""
+    rng = cx.sub_rng("xmldocguard")
+    docs = list(dict.fromkeys(docs))
+    broken = []
+    for d in docs[:cx.n(150, 3000)]:
+        if len(d) > 4:
+            k = rng.randrange(1, len(d))
+            broken.append(d[:k] + rng.choice([b"<", b"&", b'"', b">", b"</x>", b" a=\"1\" a=\"2\"", b"x:y=\"1\""]) + d[k:])
+            broken.append(d[:k])
+    alld = docs + broken
+    reqs = ["%d xmltree specparse %s" % (i, hexs(d)) for i, d in enumerate(alld)]
+    rm = cx.run_model(reqs) if reqs else {}
+    for i, d in enumerate(alld):
+        r = rm.get(str(i), ["err", "NoReply"])
+        st = expat_structure(d)
+        if b"<!" in d or b"<?" in d or b"'" in d.split(b">")[0] or any(tok in d for tok in (b"='",)):
+            continue        # outside the reader's fragment (comments, PIs, CDATA, single-quoted attributes)
+        try:
+            if any(ord(ch) in (0xFFFE, 0xFFFF) for ch in d.decode("utf-8")):
+                continue
+        except UnicodeDecodeError:
+            continue
+        mine = None
+        if r[0] == "ok":
+            mine = []
+            for tok in ([] if r[1:] == ["-"] else r[1:]):
+                dd, ns, nm, tx, at = tok.split("|")
+                attrs = sorted((unhex(a.split(":")[0]).decode() + "|" + unhex(a.split(":")[1]).decode(), unhex(a.split(":")[2]).decode("utf-8", "replace")) for a in at.split(",") if a)
+                mine.append((int(dd), unhex(ns).decode(), unhex(nm).decode(), unhex(tx).decode("utf-8", "replace"), tuple(attrs)))
+        theirs = None
+        if st is not None:
+            theirs = []
+            for j, (dd, ns, ln, text, attrs) in enumerate(st):
+                a = sorted(((k.rpartition("\x01")[0] + "|" + k.rpartition("\x01")[2]), v) for k, v in attrs.items())
+                theirs.append((dd, ns, ln, text, tuple(a)))
+        cx.count(("xmldoc", d), True, component + ":xmldoc-vs-expat:" + ("ok" if theirs is not None else "reject"))
+        if mine is None and theirs is not None and toplevel_text(d).strip("") != "":
+            continue        # character data between top-level elements: legal only because of the wrapper expat is given
+        if mine != theirs:
+            # expat accepts some things the strict reader does not need to (white space in end tags etc. are handled); report
+            cx.disagree(component + "-xmldoc-spec", reqs[i][:6000], ["expat", str(theirs)[:300]], [r[0], str(mine)[:300]])
 
 
 def classify(component, what, case):
@@ -248,6 +328,26 @@ def in_nondefault_case(n):
     return False
 
 
+def run_batched(cx, lines, component, per_batch=12, workers=8):
+    """the request stream is a sequence of groups, each starting with a `ctx` request; groups are dealt to several harness
+    processes so that no single process runs for long and all cores are used"""
+    import concurrent.futures
+    groups, cur = [], []
+    for l in lines:
+        if l.split()[2] == "ctx" and cur:
+            groups.append(cur); cur = []
+        cur.append(l)
+    if cur:
+        groups.append(cur)
+    batches = [sum(groups[i:i + per_batch], []) for i in range(0, len(groups), per_batch)]
+    cx.harness(HARNESS)          # build once, before the pool starts
+    res = {}
+    with concurrent.futures.ThreadPoolExecutor(max_workers=workers) as ex:
+        for r in ex.map(lambda b: cx.run_impl(HARNESS, b, component=component, timeout=1500), batches):
+            res.update(r)
+    return res
+
+
 def run_rt(cx, laws=("roundtrip", "independent")):
     from vlib import treegen
     rng = cx.sub_rng("rt")
@@ -271,8 +371,9 @@ def run_rt(cx, laws=("roundtrip", "independent")):
             meta[len(lines) - 1] = ("cross", s, (x, j, f))
             lines.append("%d rt leakcheck" % len(lines))
             meta[len(lines) - 1] = ("leak", s, (x, j, f))
-    ri = cx.run_impl(HARNESS, lines, component="rt", timeout=1200)
+    ri = run_batched(cx, lines, "rt")
     pending = []
+    xmlitems = []
     for i, l in enumerate(lines):
         kind, s, extra = meta[i]
         r = ri.get(str(i), ["err", "NoReply"])
@@ -301,6 +402,8 @@ def run_rt(cx, laws=("roundtrip", "independent")):
                     {"yang": s.yang(), "doc": doc.decode("utf-8", "replace"), "reply": r})
             continue
         matrix, px, pj, view = r[1], unhex(r[2]), unhex(r[3]), unhex(r[4])
+        if fmt == "xml":
+            xmlitems.append((view, px))
         if "roundtrip" in laws:
             k = 0
             for fo in FMT:
@@ -336,6 +439,8 @@ def run_rt(cx, laws=("roundtrip", "independent")):
                 if a2 != b:
                     cx.fail("rt", "XML output read by an independent parser differs from the tree (elements, namespaces or character data)",
                             {"yang": s.yang(), "xml_out": px.decode("utf-8", "replace"), "first_diff": first_diff(a2, b)})
+    model_xml_print(cx, xmlitems, "rt")
+    spec_xmldoc_vs_expat(cx, [px for _, px in xmlitems], "rt")
     # failing cells: look at the actual difference (original vs re-parsed, both printed implicit-tagged) before deciding
     FI = {"xml": 0, "json": 1, "lyb": 2}
     WI = {w: i for i, w in enumerate(WDN)}
